@@ -1,5 +1,6 @@
 CONSTANTS
   Deep = FALSE
+  Wide = FALSE
 INIT Init
 NEXT Next
 INVARIANTS NoOom ExactlyOnceInOrder AllConsumed NullOnce Laws SlurpLaw OracleAgrees
